@@ -113,21 +113,81 @@ def cstr(ctx, prog):
         if not ok:
             _viol(ctx, "CSTR", key, "to_bytes_with_nul is not `walk from the start to the first nul byte, return the i+1 bytes`", b)
         ctx.instance("CSTR", key, sample={"fn": "to_bytes_with_nul", "template": "walk to first 0, count i+1"})
+    # to_bytes / to_str.  Facts about w = to_bytes_with_nul(this), established by the walk template above: len(w) >= 1 and its last
+    # byte is 0.  A panicking path is acceptable only under a condition that contradicts them (the `unreachable!()` arm, the
+    # overflow check of `len - 1`); a returning path must yield the view w[..len-1] (to_bytes), or from_utf8 of that view with
+    # its Ok/Err passed on unchanged (to_str).
+    w = ("call", CS + "to_bytes_with_nul", None, P1)
+    LW = ("len", w)
+    last = ("cidx", ("deref", w), 1, True)
+
+    def impossible(p):
+        for c in p.conds:
+            c = table.norm_atom(table.strip_gargs(c))
+            if c in (lt(LW, Int(1)), eq(LW, Int(0)), le(LW, Int(0))):
+                return True
+            if c[0] in ("notin", "ne") and c[1] == last and (c[0] == "ne" and c[2][:2] == ("int", 0) or c[0] == "notin" and 0 in c[2]):
+                return True
+        return False
+
+    def is_body_view(t):
+        from .c08 import as_view
+        t = table.strip_gargs(t)
+        want = sym.mk_bin("Sub", LW, Int(1))
+        # the slicing primitives (their tables are C03's): slice_up_to(w, n) = w[..min(n, len)], slice_range(w, 0, n) likewise
+        if t[0] == "call" and t[1] == "konst_kernel::slice::slice_up_to" and t[3:] == (w, want):
+            return True
+        if t[0] == "call" and t[1] == "konst_kernel::slice::slice_range" and t[3:] == (w, Int(0), want):
+            return True
+        r = as_view(t, w, LW)
+        return r is not None and r != ("empty",) and r[0] == Int(0) and sym.mk_bin("Sub", LW, Int(1)) == r[1]
     b = ctx.anchor(prog, CS + "to_bytes")
     if b is not None:
-        paths = [p for p in sym.paths_of(b, prog) if p.kind == "return"]
-        w = ("call", CS + "to_bytes_with_nul", None, P1)
-        ok = len(paths) == 1 and table.strip_gargs(paths[0].value) == ("ref", ("subslice", ("deref", w), 0, 1, True))
-        if not ok:
-            _viol(ctx, "CSTR", cfg + "|to_bytes", "to_bytes must return to_bytes_with_nul(this) without exactly its last byte", b)
+        msg = None
+        n_ret = 0
+        for p in sym.paths_of(b, prog):
+            if p.kind == "return":
+                n_ret += 1
+                if not is_body_view(p.value):
+                    msg = "returns %s" % show(p.value)
+            elif not impossible(p):
+                msg = msg or "can %s although to_bytes_with_nul always returns a nul-terminated, non-empty slice (conditions: %s)" % (
+                    p.kind, [sym.show_atom(c) for c in p.conds])
+        if msg or not n_ret:
+            _viol(ctx, "CSTR", cfg + "|to_bytes", "to_bytes must return to_bytes_with_nul(this) without exactly its last byte: %s" % (msg or "no returning path"), b)
         ctx.instance("CSTR", cfg + "|to_bytes")
     b = ctx.anchor(prog, CS + "to_str")
     if b is not None:
-        paths = sym.paths_of(b, prog)
-        v = table.strip_gargs(paths[0].value) if len(paths) == 1 else None
-        ok = v is not None and v[0] == "call" and v[1].endswith("string::from_utf8") and v[3] == ("call", CS + "to_bytes", None, P1)
-        if not ok:
-            _viol(ctx, "CSTR", cfg + "|to_str", "to_str must be the checked from_utf8 of to_bytes(this): %s" % (show(v) if v else "?"), b)
+        msg = None
+        seen = set()
+        for p in sym.paths_of(b, prog, inline={CS + "to_bytes"}):
+            if p.kind != "return":
+                if not impossible(p):
+                    msg = msg or "can %s (conditions: %s)" % (p.kind, [sym.show_atom(c) for c in p.conds])
+                continue
+            if impossible(p):
+                continue
+            v = table.strip_gargs(p.value)
+
+            def checked(t):
+                return t[0] == "call" and t[1].endswith("string::from_utf8") and len(t) == 4 and is_body_view(t[3])
+            if checked(v):
+                seen |= {0, 1}
+                continue
+            # Ok(x) => Ok(x), Err(e) => Err(e): the result rebuilt variant by variant
+            ok = False
+            if v[0] == "agg" and len(v) == 3 and v[2][0] == "vfield" and checked(v[2][1]) and v[2][3] == 0:
+                k = v[2][2]
+                tag = "Result::Ok#0" if k == 0 else "Result::Err#1"
+                if v[1].endswith(tag) and ("is", table.strip_gargs(v[2][1]), k) in [table.norm_atom(table.strip_gargs(c)) for c in p.conds]:
+                    ok = True
+                    seen.add(k)
+            if not ok:
+                msg = msg or "returns %s" % show(v)
+        if seen != {0, 1}:
+            msg = msg or "does not pass on both Ok and Err of from_utf8"
+        if msg:
+            _viol(ctx, "CSTR", cfg + "|to_str", "to_str must be the checked from_utf8 of to_bytes_with_nul(this) without its last byte: %s" % msg, b)
         ctx.instance("CSTR", cfg + "|to_str")
 
 
